@@ -16,8 +16,9 @@ from gen import resfile as rf
 import impl_model as im
 from props import c06
 
-THEOREMS = ['C07_write_order', 'C07_raw_verbatim', 'C07_deleted_not_written', 'C07_includes_not_written', 'C07_include_cycles', 'C07_include_inserted',
-            'C07_passthrough_fixpoint', 'C07_scaled_denote', 'C07_u_fixed_point', 'C07_expand_example']
+THEOREMS = ['C07_write_order', 'C07_raw_verbatim', 'C07_deleted_not_written', 'C07_includes_not_written', 'C07_include_cycles', 'C07_include_inserted', 'C07_until_end_spec', 'C07_until_end_example',
+            'C07_passthrough_fixpoint', 'C07_scaled_denote', 'C07_u_fixed_point', 'C07_fvars_written_shape', 'C07_fvars_written_ignores_included',
+            'C07_fvars_written_example', 'C07_expand_example']
 IMPORTS = 'From SX Require Import Base.Prelude Base.Str Model.Wrap Model.Writer.\n'
 UNKNOWN = ['REM caf\u00e9ine at 100\u00b0 d = 1.54 \u00c5', 'TIME 5 ! \u00c5ngstr\u00f6m', 'TIME 5', 'MOLE 1', 'HOPE 1 2 3', 'LONE 1 2 C1', 'BEDE x y', 'TIME   5    ! odd   spacing', 'mole 2']
 
@@ -165,6 +166,7 @@ def run(ctx):
         # ---- include files
         ninc = 2500 if ctx.thorough() else 40
         inc_cases = []
+        fv_cases = []
         for k in range(ninc):
             for f in os.listdir(tmp):
                 os.remove(os.path.join(tmp, f))
@@ -175,6 +177,7 @@ def run(ctx):
             natoms_inc = 0
             nrest_inc = 0
             sandwich = False
+            ended = []
             pos = [i for i, l in enumerate(lines) if l.startswith('FVAR')][-1] + 1
             for j in range(rng.randint(1, 2)):
                 name = 'inc%d.txt' % j
@@ -194,6 +197,12 @@ def run(ctx):
                     files[nn] = ['Y%d 1 %.5f %.5f %.5f 11.00000 0.05' % (j, rng.random(), rng.random(), rng.random())]
                     natoms_inc += 1
                     body.insert(rng.randint(0, len(body)), '+' + nn)
+                if rng.random() < 0.3:
+                    # an END instruction ends the include file (and only that); what follows it in the include file is not read
+                    body.append(rng.choice(['END', 'end', 'END ']))
+                    if rng.random() < 0.5:
+                        body.append('W%d 1 0.5 0.5 0.5 11.00000 0.05' % j)
+                    ended.append(name)
                 files[name] = body
                 lines.insert(pos, '+' + name)
                 pos += 1
@@ -223,8 +232,14 @@ def run(ctx):
             if st != 'ok' or inn:
                 common.add_violation(ctx, 'a valid file with include files raises', case, 'ok', '%s %s' % (st, inn))
                 continue
+            # the FVAR block as written, for the model of FVARs.__str__ (which free variables came from an include file is known from the files)
+            fv_cases.append(([(str(f.fvar_value), bool(f.included)) for f in shx.fvars.fvars], str(shx.fvars)))
             n0 = len(shx.atoms.all_atoms)
             exp_atoms = len(gf['atoms']) + natoms_inc
+            if ended and (any(a.qpeak for a in shx.atoms.all_atoms)):
+                common.add_violation(ctx, 'an END instruction in an include file ends the res file: atoms behind the include line are taken for Q-peaks', case,
+                                     'no Q-peaks (the file has none)', [a.name for a in shx.atoms.all_atoms if a.qpeak][:6])
+                continue
             if n0 != exp_atoms:
                 common.add_violation(ctx, 'atoms of include files are not in the atom list exactly once', case, exp_atoms, n0)
                 continue
@@ -278,7 +293,16 @@ def run(ctx):
             c = inc_cases[si * step + bad[0]]
             ctx.broken.append('correspondence: Model/Writer.v expand differs from _find_included_files: main %s files %s -> %s marked %s' % (c[0][-8:], c[1], c[2][-10:], c[3]))
             break
-    ctx.cov['evaluations'] = ev + len(coq_files) + len(inc_cases)
+    # ---- correspondence 3: the FVAR block with free variables from include files
+    if fv_cases:
+        defs = ['Definition fv : list (list (str * bool) * list str) := %s.' % clist(
+            ['(%s, %s)' % (clist(['(lit %s, %s)' % (cstr(v), 'true' if inc else 'false') for v, inc in vals]), clist(['lit ' + cstr(l) for l in (txt.split('\n') if txt else [])]))
+             for vals, txt in fv_cases]),
+                'Definition leq (a b : list str) : bool := if list_eq_dec (list_eq_dec Ascii.ascii_dec) a b then true else false.']
+        res = common.coq_eval(ctx, 'c07fv', IMPORTS, '\n'.join(defs), ['bad_indices (fun c : list (str * bool) * list str => leq (fvars_written (fst c)) (snd c)) fv'])
+        for b in common.parse_nat_list(res[0])[:3]:
+            ctx.broken.append('correspondence: Model/Wrap.v fvars_written differs from FVARs.__str__ for %s -> %r' % fv_cases[b])
+    ctx.cov['evaluations'] = ev + len(coq_files) + len(inc_cases) + len(fv_cases)
     ctx.cov['distinct_nontrivial'] = nfiles + len(inc_cases)
     ctx.cov['rule'] = ('generator files (plain / wild layout) and long-instruction files with 0-3 unknown instructions (TIME, MOLE, HOPE, LONE, BEDE, odd spacing, '
                        'lower case) inserted between instructions: keyword order, verbatim lines, three read/write cycles compared byte for byte; files with 1-2 '
